@@ -50,19 +50,67 @@ class RegModel:
                     must.add(b.id)
                     changed = True
         self.must_init = must
-        # registry writers: bodies that apply a &mut HashMap method to a REGISTRY map
-        self.writers = {}
+        # leaf registry writers: bodies that apply a &mut HashMap method to a REGISTRY map
+        self.leaf = {}
         for b in prog.bodies:
             ms = [c for c in b.live_calls if hm_method(c) in HM_MUT and reg_class_of_call(c) == 'REGISTRY']
             if ms:
-                self.writers[b.id] = ms
-        self.reach_writer = lm._closure(lambda bid: bid in self.writers)
-        self.reg_lockers = {b.id for b in prog.bodies
-                            if any(c.callee in LOCK_CALLS and guard_class(c.term['dest']['ty']) == 'REGISTRY' for c in b.live_calls)}
-        self.reach_reg_lock = lm._closure(lambda bid: bid in self.reg_lockers)
+                self.leaf[b.id] = ms
         # fillers: bodies that create built-in handler closures
         hs = prog.builtin_handlers()
         self.fillers = sorted({h.j.get('parent') for h in hs if h.is_closure and h.j.get('parent') in prog.by_id})
+        # writer family: leaf writers plus forwarders (bodies whose only registry-affecting action is
+        # one call into the family whose arguments are their own parameters, constants, or a record
+        # built from those)
+        api_ids = {prog.api(n).id for n in API if prog.api(n)}
+        self.family = set(self.leaf)
+        self.forward_call = {}
+        changed = True
+        while changed:
+            changed = False
+            for b in prog.bodies:
+                if b.id in self.family or b.id in self.fillers or b.id in api_ids or b.is_closure:
+                    continue
+                calls = [c for c in b.live_calls if c.ruid in self.family]
+                if len(calls) != 1:
+                    continue
+                c = calls[0]
+                if all(self._forwardable(b, a) for a in c.args[1:]):
+                    self.family.add(b.id)
+                    self.forward_call[b.id] = c
+                    changed = True
+        self.writers = {bid: self.leaf.get(bid, [self.forward_call.get(bid)]) for bid in self.family}
+        self.reach_writer = lm._closure(lambda bid: bid in self.family)
+        self.reg_lockers = {b.id for b in prog.bodies
+                            if any(c.callee in LOCK_CALLS and guard_class(c.term['dest']['ty']) == 'REGISTRY' for c in b.live_calls)}
+        self.reach_reg_lock = lm._closure(lambda bid: bid in self.reg_lockers)
+        # once-only bodies: reachable only through the once-closure of the ONCE flag
+        once_ids = {clo.id for (b, c, clo) in self.init_once}
+        self.once_only = set(once_ids)
+        changed = True
+        while changed:
+            changed = False
+            for b in prog.bodies:
+                if b.id in self.once_only:
+                    continue
+                callers = prog.callers.get(b.id, set())
+                if callers and all(x in self.once_only for x in callers):
+                    self.once_only.add(b.id)
+                    changed = True
+
+    def _forwardable(self, b, op, depth=0):
+        if depth > 3:
+            return False
+        for o in trace_operand(b, op, through_calls=THROUGH):
+            if o.kind == 'param':
+                continue
+            if o.kind == 'const':
+                continue
+            if o.kind == 'agg' and o.data[2]['agg'] in ('adt', 'tuple'):
+                if all(self._forwardable(b, x, depth + 1) for x in o.data[2]['ops']):
+                    continue
+            return False
+        return True
 
     def _must_pass(self, body, blocks):
         """every path entry -> return passes through one of `blocks`"""
@@ -105,18 +153,17 @@ def rule_winit(rm):
         else:
             obs.append(ok('WINIT', key, '%s: %d registry-touching call(s), each dominated by the initialiser call' % (name, n), e.where()))
     # fillers only from the once-closure of the ONCE flag
-    once_ids = {clo.id for (b, c, clo) in rm.init_once}
     for fid in rm.fillers:
         fb = prog.by_id[fid]
         callers = prog.callers.get(fid, set())
         key = 'WINIT|filler|%s' % fb.name
-        extra = [prog.by_id[c].name for c in callers if c not in once_ids]
+        extra = [prog.by_id[c].name for c in callers if c not in rm.once_only]
         if not callers:
             obs.append(bad('WINIT', key, 'built-in filler %s is never called' % fb.name, fb.where(), body=fb.name))
         elif extra:
             obs.append(bad('WINIT', key, 'built-in filler %s is called from %s, outside the blocking once-closure: a concurrent first use can observe a partially filled table, and a later call re-installs built-ins over user registrations' % (fb.name, extra), fb.where(), body=fb.name))
         else:
-            obs.append(ok('WINIT', key, 'built-in filler %s is called only from the once-closure' % fb.name, fb.where()))
+            obs.append(ok('WINIT', key, 'built-in filler %s is reachable only through the once-closure' % fb.name, fb.where()))
     obs.append(floor('WINIT', 'fillers', len(rm.fillers), 4, 'prefix / infix / postfix / function built-ins'))
     # the once closure must not be bypassed: the body holding the once call has no other path
     for (b, c, clo) in rm.init_once:
@@ -131,7 +178,8 @@ def rule_winit(rm):
 def rule_winsert(rm):
     prog = rm.prog
     obs = []
-    for bid, calls in sorted(rm.writers.items()):
+    # leaf writers: exactly one insert(name, value) built from the parameters
+    for bid, calls in sorted(rm.leaf.items()):
         b = prog.by_id[bid]
         ms = [hm_method(c) for c in calls]
         key = 'WINSERT|writer|%s' % b.name
@@ -139,13 +187,11 @@ def rule_winsert(rm):
             obs.append(bad('WINSERT', key, 'registry writer %s applies %s to the registry map; only a single `insert` (replace = most recently registered wins) is allowed' % (b.name, ms), b.where(), body=b.name))
             continue
         c = calls[0]
-        # key <- parameter (through to_string); value fields <- distinct parameters
         ko = single_origin(trace_operand(b, c.args[1], through_calls=THROUGH))
         problems = []
         if ko is None or ko.kind != 'param' or ko.proj:
             problems.append('the key is not the (unchanged) name parameter')
-        vo = trace_operand(b, c.args[2], through_calls=THROUGH)
-        v = single_origin(vo)
+        v = single_origin(trace_operand(b, c.args[2], through_calls=THROUGH))
         used = []
         if v is not None and v.kind == 'agg' and v.data[2]['agg'] == 'adt':
             for k, o in enumerate(v.data[2]['ops']):
@@ -160,36 +206,72 @@ def rule_winsert(rm):
             used = [v.data]
         else:
             problems.append('the stored value is not built from the parameters')
-        if not problems and ko is not None and used and ko.data >= min(used):
+        if not problems and used and ko.data >= min(used):
             problems.append('the key parameter does not precede the value parameters')
-        # all parameters after self are used
-        if not problems and sorted([ko.data] + used) != list(range(2, b.arg_count + 1)):
-            problems.append('not every parameter reaches the map (%s of %d)' % (sorted([ko.data] + used), b.arg_count))
+        if not problems:
+            rest = sorted([ko.data] + used)
+            # every parameter after the receiver(s) reaches the map
+            if rest != list(range(rest[0], b.arg_count + 1)) or rest[0] > 2:
+                problems.append('not every parameter reaches the map (%s of %d)' % (rest, b.arg_count))
+        # the insert is unconditional
+        skip = b.reachable_from(0, avoid={c.bb})
+        if c.bb != 0 and any(b.blocks[x]['term']['k'] == 'return' for x in skip):
+            problems.append('the insert can be skipped on some path')
         if problems:
             obs.append(bad('WINSERT', key, '%s: %s' % (b.name, '; '.join(problems)), c.where(), body=b.name))
         else:
-            obs.append(ok('WINSERT', key, '%s: one insert(name, value) with name = parameter %d and value fields = parameters %s, unchanged' % (b.name, ko.data, used), c.where()))
-        # who may call
+            obs.append(ok('WINSERT', key, '%s: one unconditional insert(name, value) with name = parameter %d and value = parameter(s) %s, unchanged' % (b.name, ko.data, used), c.where()))
+    # forwarders: hand their parameters on unchanged and in order (constants may be filled in)
+    for bid, c in sorted(rm.forward_call.items()):
+        b = prog.by_id[bid]
+        key = 'WINSERT|forward|%s' % b.name
+        seq = []
+        okk = True
+        for a in c.args[1:]:
+            for o in trace_operand(b, a, through_calls=THROUGH):
+                if o.kind == 'param' and not o.proj:
+                    seq.append(o.data)
+                elif o.kind == 'agg':
+                    for x in o.data[2]['ops']:
+                        for oo in trace_operand(b, x, through_calls=THROUGH):
+                            if oo.kind == 'param' and not oo.proj:
+                                seq.append(oo.data)
+                            elif oo.kind == 'param':
+                                okk = False
+                elif o.kind == 'param':
+                    # a field of self (e.g. the store handle) is fine as a receiver-like first argument
+                    if o.data != 1:
+                        okk = False
+        skip = b.reachable_from(0, avoid={c.bb})
+        uncond = c.bb == 0 or not any(b.blocks[x]['term']['k'] == 'return' for x in skip)
+        ps = [x for x in seq if x >= 2]
+        if okk and uncond and ps == sorted(ps) and len(set(ps)) == len(ps) and ps == list(range(2, b.arg_count + 1)):
+            obs.append(ok('WINSERT', key, '%s forwards all its parameters %s unchanged, in order, unconditionally' % (b.name, ps), c.where()))
+        else:
+            obs.append(bad('WINSERT', key, '%s does not forward all of its parameters unchanged, in order and unconditionally to the registry writer (forwarded %s of %d%s)' % (b.name, ps, b.arg_count, '' if uncond else '; the call can be skipped'), c.where(), body=b.name))
+    # who may call the family: register_*, fillers, other family members
+    allowed = set(rm.fillers) | set(rm.family)
+    for n in REGISTER_API:
+        e = prog.api(n)
+        if e:
+            allowed.add(e.id)
+    for bid in sorted(rm.family):
+        b = prog.by_id[bid]
         callers = prog.callers.get(bid, set())
-        allowed = set(rm.fillers)
-        for n in REGISTER_API:
-            e = prog.api(n)
-            if e:
-                allowed.add(e.id)
         extra = [prog.by_id[x].name for x in callers if x not in allowed]
         k2 = 'WINSERT|callers|%s' % b.name
         if extra:
             obs.append(bad('WINSERT', k2, 'registry writer %s is called from %s (only register_* and the built-in fillers may write)' % (b.name, extra), b.where(), body=b.name))
         else:
-            obs.append(ok('WINSERT', k2, 'registry writer %s is called only from register_* and the built-in fillers' % b.name, b.where()))
-    obs.append(floor('WINSERT', 'writers', len(rm.writers), 4, 'one writer per registry'))
-    # public register_* pass their parameters straight through, in order
+            obs.append(ok('WINSERT', k2, 'registry writer %s is called only from register_*, the built-in fillers and other writers' % b.name, b.where()))
+    obs.append(floor('WINSERT', 'leaf-writers', len(rm.leaf), 1, 'some body inserts into the registries'))
+    # public register_* pass their parameters straight through, in order, to one writer
     for n in REGISTER_API:
         e = prog.api(n)
         if not e:
             continue
         key = 'WINSERT|passthrough|%s' % n
-        ws = [c for c in e.live_calls if c.ruid in rm.writers]
+        ws = [c for c in e.live_calls if c.ruid in rm.family]
         if len(ws) != 1:
             obs.append(bad('WINSERT', key, '%s calls %d registry writers (expected 1)' % (n, len(ws)), e.where(), body=e.name))
             continue
